@@ -53,6 +53,9 @@ pub struct Driving {
     pub mix: u8,
     /// seed of stopwatch scripts and time limits
     pub seed: u64,
+    /// after a breakpoint stop the host switches to FrameCount(1) for the call that resumes (the frame the
+    /// stop fell into is then the last — visible — frame of a call instead of an inner frame of a longer one)
+    pub resume1: bool,
 }
 
 impl Driving {
@@ -70,6 +73,7 @@ impl Driving {
             deliv: Deliv::Whole,
             mix: 0,
             seed: 1,
+            resume1: false,
         }
     }
     pub fn frames(&self) -> usize {
@@ -82,7 +86,7 @@ impl Driving {
             self.part.iter().map(|x| x.to_string()).collect::<Vec<_>>().join(",")
         };
         format!(
-            "part={} mode={} bps={}@{}-{} step={}@{}-{} sound={}{} drain={} deliv={} mix={} seed={}",
+            "part={} mode={} bps={}@{}-{} step={}@{}-{} sound={}{} drain={} deliv={} mix={} seed={}{}",
             part,
             match self.mode { ModeKind::Fc => "fc", ModeKind::Max => "max", ModeKind::Mixed => "mixed" },
             if self.bps.is_empty() { "-".to_string() } else { self.bps.iter().map(|a| format!("{:04x}", a)).collect::<Vec<_>>().join(",") },
@@ -92,7 +96,8 @@ impl Driving {
             if self.sound { "on" } else { "off" },
             if self.sound_toggle { "~" } else { "" },
             match self.drain { Drain::Every => "every", Drain::Every3 => "every3", Drain::Never => "never", Drain::Returns => "returns" },
-            self.deliv.text(), self.mix, self.seed
+            self.deliv.text(), self.mix, self.seed,
+            if self.resume1 { " resume=1" } else { "" }
         )
     }
     pub fn parse(s: &str) -> Option<Driving> {
@@ -130,6 +135,7 @@ impl Driving {
                 "deliv" => d.deliv = Deliv::parse(v)?,
                 "mix" => d.mix = v.parse().ok()?,
                 "seed" => d.seed = v.parse().ok()?,
+                "resume" => d.resume1 = v == "1",
                 _ => return None,
             }
         }
@@ -170,6 +176,9 @@ impl Driving {
         if self.mix != 0 {
             c.push(format!("mix{}", self.mix));
         }
+        if self.resume1 {
+            c.push("resume-fc1".into());
+        }
         c.join("+")
     }
     /// frames after which this driving drains the audio queue completely (at boundaries)
@@ -181,7 +190,7 @@ impl Driving {
         }
     }
     pub fn audio_key(&self) -> Option<(Vec<usize>, u8)> {
-        if self.drain == Drain::Returns && (self.step != StepKind::None || !self.bps.is_empty()) {
+        if self.drain == Drain::Returns && (self.step != StepKind::None || !self.bps.is_empty()) || self.resume1 {
             return None;
         }
         Some((self.drain_set(), self.mix))
@@ -375,6 +384,7 @@ fn run_inner(scn: &Scenario, d: &Driving, out: &mut RunOut) {
     e.set_sound(sound);
     apply_events(scn, 0, &mut e);
     let max_calls: u64 = 200_000 + 40_000 * d.frames() as u64;
+    let mut after_bp = false;
     for &target in &d.part {
         while done < target {
             let remaining = target - done;
@@ -445,7 +455,7 @@ fn run_inner(scn: &Scenario, d: &Driving, out: &mut RunOut) {
                     }
                 }
             } else {
-                let n = if stepping && d.step == StepKind::Fc0 { 0 } else { remaining };
+                let n = if stepping && d.step == StepKind::Fc0 { 0 } else if d.resume1 && after_bp { 1 } else { remaining };
                 e.set_speed(EmulationMode::FrameCount(n));
                 let dur = Duration::from_nanos(rng.below(1 << 40));
                 let mut script = vec![dur];
@@ -479,6 +489,7 @@ fn run_inner(scn: &Scenario, d: &Driving, out: &mut RunOut) {
                     EmulationStopReason::Breakpoint => {}
                 }
             }
+            after_bp = matches!(info.stop_reason, EmulationStopReason::Breakpoint);
             match info.stop_reason {
                 EmulationStopReason::Completed => out.stops[0] += 1,
                 EmulationStopReason::Timeout => out.stops[1] += 1,
